@@ -13,8 +13,7 @@ def parseOutcome (s : String) : R Outcome :=
   | "comm" => pure .comm | "exc" => pure .exc
   | _ => throw s!"bad outcome {s}"
 
-/-- `"d"` = doPoll, `"i"` = writeInitParams + initialReads of the start-up round, `"w"` = the writeInitParams behind it,
-a number = `read_<p>` -/
+/-- `"d"` = doPoll, `"i"` = initialReads, `"w"` = writeInitParams (in the start-up round or behind it), a number = `read_<p>` -/
 def parseFn (j : Json) : R Fn :=
   match j with
   | .str "d" => pure .doPoll
